@@ -8,8 +8,9 @@
    through M_C05_SPG.spg_alpha; project / project_onto_tr are those of M_C05_SPG.v (clamp = regenerated project kernel).
    Operator precedence is literal: `mu0*g@s` is (mu0*g)@s, `0.5*s@H(s)` is (0.5*s)@H(s), `0.5*alpha*sBs` is (0.5*alpha)*sBs.
    Output: the returned (point, flag) -- None when the run ends in the documented RuntimeError or leaves the model's range --
-   and a trace with EVERY point the solver forms: each x+z whose sub-problem optimality is evaluated (the Cauchy point and
-   every SPG iterate), each trial point y, and the callback / update_precond / return events of M_C01_TR.event.
+   and a trace with EVERY point the solver forms: the centre x and the radius trSize of each outer iteration (FIter), each x+z
+   whose sub-problem optimality is evaluated (the Cauchy point and every SPG iterate), each trial point y, and the callback /
+   update_precond / return events of M_C01_TR.event.
    Executable definitions only. *)
 From Coq Require Import ZArith QArith List Bool.
 From OV.base Require Import Num.
@@ -38,9 +39,11 @@ Inductive fevent (T : Type) :=
 | FSpgExit (kind : nat) (iters : nat)              (* solve_spg_subproblem returned: 0 'cauchy pt', 1 'boundary', 2 'interior_' *)
 | FTrial (y : list T)                              (* y = x + s *)
 | FOut (e : event T)                               (* callback / update_precond / return events, as in M_C01_TR *)
-| FModelLimit.                                     (* max_spg_iters = 0 (python: NameError) or a loop cap of 0: outside the model *)
+| FModelLimit                                      (* max_spg_iters = 0 (python: NameError) or a loop cap of 0: outside the model *)
+| FIter (x : list T) (trSize : T).                 (* start of an outer iteration: the (x, trSize) handed to find_generalized_cauchy_point
+                                                      and solve_spg_subproblem -- the centre and radius of this iteration's trust region *)
 Arguments FCauchy {T}. Arguments FCauchyError {T}. Arguments FSpg {T}. Arguments FSpgExit {T}. Arguments FTrial {T}.
-Arguments FOut {T}. Arguments FModelLimit {T}.
+Arguments FOut {T}. Arguments FModelLimit {T}. Arguments FIter {T}.
 
 Section Full.
   Context {T : Type} {NT : Num T}.
@@ -232,11 +235,11 @@ Section Full.
     | Datatypes.S iters' =>
       let Hv := hessvec (f_x s) in
       match cauchy_point (f_x s) (f_g s) Hv (f_tr s) (f_alpha s) with
-      | CPError ph => (None, [FCauchyError ph])
-      | CPLimit => (None, [FModelLimit])
+      | CPError ph => (None, [FIter (f_x s) (f_tr s); FCauchyError ph])
+      | CPLimit => (None, [FIter (f_x s) (f_tr s); FModelLimit])
       | CPOk fwd n1 n2 alpha1 cs =>
         let r := solve_spg (f_x s) cs (f_g s) Hv (f_tr s) (f_k s) in
-        let pre := FCauchy fwd n1 n2 alpha1 :: o_ev r ++ [FSpgExit (o_kind r) (o_iters r)] in
+        let pre := FIter (f_x s) (f_tr s) :: FCauchy fwd n1 n2 alpha1 :: o_ev r ++ [FSpgExit (o_kind r) (o_iters r)] in
         if Nat.eqb (o_kind r) 3 then (None, pre ++ [FModelLimit])
         else
           let y := vadd (f_x s) (o_z r) in
